@@ -3,6 +3,7 @@ package main
 import (
 	"fmt"
 	"go/token"
+	"strings"
 
 	"golang.org/x/tools/go/ssa"
 )
@@ -344,6 +345,37 @@ func ruleTruncateOnClose(r *Report) {
 	r.Rule(rule, 3, "FileWriter.Close flushes, truncates to the current offset when bytes linger beyond it (largest > current), then closes; Seek folds the current offset into the largest offset before moving")
 	p := r.P
 	o := &order{r, p}
+	// the high-water mark only grows: outside Open every assignment folds the old value in (max), it is never lowered
+	// to the current offset — otherwise Close stops truncating the bytes a Seek back left behind
+	{
+		key := rule + "/recordio.FileWriter/largest-only-grows"
+		bad := ""
+		n := 0
+		for _, fn := range p.FuncsOfPkg("recordio") {
+			if fn.Signature.Recv() == nil || !strings.HasSuffix(typeShort(fn.Signature.Recv().Type()), "recordio.FileWriter") || fn.Name() == "Open" {
+				continue
+			}
+			eachInstr(fn, func(s Site) {
+				st, ok := s.Instr.(*ssa.Store)
+				if !ok {
+					return
+				}
+				if t, f, _, isF := fieldAddrName(st.Addr); !isF || t != "recordio.FileWriter" || f != "largestOffset" {
+					return
+				}
+				n++
+				folds, _ := foldsLargest(fn, s)
+				if !folds {
+					bad = FuncKey(fn) + " at " + p.Pos(s.Pos())
+				}
+			})
+		}
+		if bad != "" {
+			r.Bad(rule, key, 0, "largestOffset is assigned without folding its old value in ("+bad+"): after a Seek back (a rolled-back table write) an accepted nil record lowers the mark, Close no longer truncates, and the rolled-back record's bytes stay in the file — DataBytes understates the data file")
+		} else {
+			r.OK(rule, key, 0, fmt.Sprintf("%d assignment(s) outside Open, all max(old, …)", n))
+		}
+	}
 	if fn := r.NeedFunc(rule, "recordio.FileWriter.Close"); fn != nil {
 		F := CallsIn(fn, Suffix("WriteSeekerCloserFlusher.Flush", "Writer.Flush"))
 		T := CallsIn(fn, Keys("os.File.Truncate"))
@@ -469,15 +501,9 @@ func ruleTruncateOnClose(r *Report) {
 			}
 		})
 		okFold := false
-		if haveL && haveC && precedes(stL, stC) {
-			if c, ok := stL.Instr.(*ssa.Store).Val.(*ssa.Call); ok {
-				if b, ok := c.Call.Value.(*ssa.Builtin); ok && b.Name() == "max" && len(c.Call.Args) == 2 {
-					l := isFieldLoad("recordio.FileWriter", "largestOffset")
-					cu := isFieldLoad("recordio.FileWriter", "currentOffset")
-					if (l(c.Call.Args[0]) && cu(c.Call.Args[1])) || (l(c.Call.Args[1]) && cu(c.Call.Args[0])) {
-						okFold = true
-					}
-				}
+		if haveL && haveC && reachableFromSite(stL, stC) && !reachableFromSite(stC, stL) {
+			if f, with := foldsLargest(fn, stL); f && with == "currentOffset" {
+				okFold = true
 			}
 		}
 		if okFold {
@@ -486,4 +512,63 @@ func ruleTruncateOnClose(r *Report) {
 			r.Bad(rule, key, fn.Pos(), "Seek does not fold the current offset into largestOffset before overwriting it: lingering bytes are not truncated at close")
 		}
 	}
+}
+
+// foldsLargest: the store keeps the high-water mark monotone — its value is max(largestOffset, x), or it is a load of a
+// field that a dominating test found larger than the mark (`if w.currentOffset > w.largestOffset { w.largestOffset = w.currentOffset }`).
+// It returns the field the mark is folded with ("" when x is not a plain field load).
+func foldsLargest(fn *ssa.Function, s Site) (bool, string) {
+	st := s.Instr.(*ssa.Store)
+	isLargest := isFieldLoad("recordio.FileWriter", "largestOffset")
+	fieldOf := func(v ssa.Value) string {
+		if _, f, _, ok := loadOfField(v); ok {
+			return f
+		}
+		return ""
+	}
+	if c, isC := st.Val.(*ssa.Call); isC {
+		if bi, isB := c.Call.Value.(*ssa.Builtin); isB && bi.Name() == "max" {
+			with, has := "", false
+			for _, a := range c.Call.Args {
+				if isLargest(a) {
+					has = true
+				} else {
+					with = fieldOf(a)
+				}
+			}
+			if has {
+				return true, with
+			}
+		}
+	}
+	vf := fieldOf(st.Val)
+	if vf == "" || vf == "largestOffset" {
+		return false, ""
+	}
+	for _, b := range liveBlocks(fn) {
+		cnd, tS, fS, tE, fE, okC := effCond(b)
+		if !okC {
+			continue
+		}
+		bo, isB := cnd.(*ssa.BinOp)
+		if !isB {
+			continue
+		}
+		var grow *ssa.BasicBlock
+		switch {
+		case (bo.Op == token.GTR || bo.Op == token.GEQ) && fieldOf(bo.X) == vf && isLargest(bo.Y) && tE:
+			grow = tS
+		case (bo.Op == token.LSS || bo.Op == token.LEQ) && isLargest(bo.X) && fieldOf(bo.Y) == vf && tE:
+			grow = tS
+		case (bo.Op == token.LEQ || bo.Op == token.LSS) && fieldOf(bo.X) == vf && isLargest(bo.Y) && fE:
+			grow = fS
+		case (bo.Op == token.GEQ || bo.Op == token.GTR) && isLargest(bo.X) && fieldOf(bo.Y) == vf && fE:
+			grow = fS
+		}
+		if grow != nil && (grow == s.Block || grow.Dominates(s.Block)) {
+			// nothing writes the field between the test and the store (same block chain): accepted as it stands
+			return true, vf
+		}
+	}
+	return false, ""
 }
